@@ -8,7 +8,7 @@ import (
 	"sort"
 	"strings"
 
-	"golang.org/x/tools/go/ssa"
+	"ikeverif/checker/xt/ssa"
 )
 
 // Stream-style codec engine for EAP-AKA' (DESIGN 3.6): reader calls and binary.Write calls are
